@@ -98,7 +98,7 @@ def run(v):
                                 signature=cmdline_sig.signature, trace_module="GroupLineTrace", name="C06p")
     cov = merge_cov(cov, pcov, "alt_pos")
     # the documented exception: `catch` turns an invalid value into absence (a typed one is then left over)
-    cfam = D.catch_family(SEED + 65, 12 if q else 48, maxlen=2 if q else 3, budget=1500 if q else 12000) + \
+    cfam = D.count_family(SEED + 70, 12 if q else 36, maxlen=3, budget=3000 if q else 20000) + D.catch_family(SEED + 65, 12 if q else 48, maxlen=2 if q else 3, budget=1500 if q else 12000) + \
         D.flagguard_family(SEED + 67, 12 if q else 36, maxlen=2 if q else 3, budget=800 if q else 5000)
     ccov = run_cmdline_property(v, cfam, None, signature=cmdline_sig.signature, name="C06c")
     cov = merge_cov(cov, ccov, "catch")
